@@ -678,13 +678,8 @@ ElemNumber::getPreviousNode(
             {
                 next = pos->getParentNode();
 
-                if(0 != next &&
-                   next->getNodeType() == XalanNode::DOCUMENT_NODE ||
-                   (0 != fromMatchPattern &&
-                        fromMatchPattern->getMatchScore(
-                            next,
-                            *this,
-                            executionContext) != XPath::eMatchScoreNone))
+                if(0 == next ||
+                   next->getNodeType() == XalanNode::DOCUMENT_NODE)
                 {
                     pos = 0; // return 0 from function.
 
@@ -706,13 +701,27 @@ ElemNumber::getPreviousNode(
             }
 
             pos = next;
+            assert(pos != 0);
 
-            if(0 != pos &&
-               (0 == countMatchPattern ||
-                countMatchPattern->getMatchScore(
+            // The walk ends at the first node that matches the 'from'
+            // pattern, whether it is an ancestor, a previous sibling, or
+            // a descendant of one...
+            if(0 != fromMatchPattern &&
+               fromMatchPattern->getMatchScore(
                         pos,
                         *this,
-                        executionContext) != XPath::eMatchScoreNone))
+                        executionContext) != XPath::eMatchScoreNone)
+            {
+                pos = 0; // return 0 from function.
+
+                break; // from while loop
+            }
+
+            if(0 == countMatchPattern ||
+               countMatchPattern->getMatchScore(
+                        pos,
+                        *this,
+                        executionContext) != XPath::eMatchScoreNone)
             {
                 break;
             }
